@@ -8,6 +8,7 @@ CONSTANTS
   AllNodes = allnodes
   LLAs = {l1, l2}
   GUAs = {g1, ula1, unspec6, loop6, mc5, map4, allnodes}
+  CaptureMACs = {}
   OtherV6 = {ula1, unspec6, loop6, mc5, map4, allnodes}
   V4s = {a1}
   NoIP = noip
